@@ -15,7 +15,7 @@ CLASSES = {}   # class name -> Cls
 
 
 class Cls:
-    def __init__(self, name, fields=None, rep=None, isa=None, bases=(), view=None, methods=None):
+    def __init__(self, name, fields=None, rep=None, isa=None, bases=(), view=None, methods=None, truth=None):
         self.name = name
         self.fields = fields or {}       # field -> type string ('v','int','bool','list','set','dict','deque','obj:Name','fn')
         self.rep = rep or []             # representation invariant clauses over `self`
@@ -23,6 +23,7 @@ class Cls:
         self.bases = tuple(bases)
         self.view = view
         self.methods = methods or {}     # method name -> Fn key
+        self.truth = truth               # spec expression over `self` giving bool(self) (classes with __len__/__bool__)
 
 
 class Fn:
